@@ -3,6 +3,39 @@
 #include <vector>
 #include "sim.h"
 
+// ThreadSanitizer sees libc calls (memmove, malloc, vsnprintf...) made by the
+// uninstrumented simulator through its interceptors.  Simulator state is
+// handed from thread to thread without TSan-visible synchronisation (on
+// purpose), so every simulator entry point ignores its own memory accesses.
+extern "C" {
+void AnnotateIgnoreReadsBegin(const char *f, int l) __attribute__((weak));
+void AnnotateIgnoreReadsEnd(const char *f, int l) __attribute__((weak));
+void AnnotateIgnoreWritesBegin(const char *f, int l) __attribute__((weak));
+void AnnotateIgnoreWritesEnd(const char *f, int l) __attribute__((weak));
+}
+
+namespace sim {
+struct Ig {
+  bool on = false;
+  Ig() { begin(); }
+  ~Ig() { end(); }
+  void begin() {
+    if (!on && AnnotateIgnoreReadsBegin) {
+      AnnotateIgnoreReadsBegin(__FILE__, __LINE__);
+      AnnotateIgnoreWritesBegin(__FILE__, __LINE__);
+      on = true;
+    }
+  }
+  void end() {
+    if (on) {
+      AnnotateIgnoreWritesEnd(__FILE__, __LINE__);
+      AnnotateIgnoreReadsEnd(__FILE__, __LINE__);
+      on = false;
+    }
+  }
+};
+}  // namespace sim
+
 namespace sim {
 namespace internal {
 void count_fault(const char *name);
